@@ -293,3 +293,49 @@ func init() {
 		}
 	})
 }
+
+// ------------------------------------------------------------------ C18.R6
+// What a prune removes and in which order across the two stores: every per-height key PruneBlocks deletes
+// is keyed by the height being pruned (the loop height, the one whose meta was loaded) — never by the
+// retain height, which must survive; and consensus prunes the block store first and the state store only
+// after that succeeded (the state store keeps what the block store still needs).
+func init() {
+	register("C18", "R6", "K1+K2", "a prune deletes only entries of the heights below the retain height, block store first, state store after it succeeded", 7, func(c *Ctx) {
+		w := c.W
+		if f := c.fn("store", "BlockStore.PruneBlocks"); f != nil {
+			fk := funcKey(f)
+			loopH := ""
+			for _, call := range w.deepCallsTo(f, 1, "store#BlockStore.LoadBlockMeta") {
+				loopH = call.arg(0)
+			}
+			c.Check(loopH != "" && loopH != "height", fk+" :: loads the meta of the height being pruned", w.pos(f.Pos()), loopH, "cannot identify the loop height")
+			n := 0
+			for _, d := range w.deepCallsTo(f, 1, "github.com/tendermint/tm-db#Batch.Delete") {
+				key := d.arg(0)
+				m := regexp.MustCompile(`^store\.(calcBlockMetaKey|calcBlockCommitKey|calcSeenCommitKey|calcBlockPartKey)\((.*)\)$`).FindStringSubmatch(key)
+				if m == nil {
+					continue
+				}
+				n++
+				arg := m[2]
+				if m[1] == "calcBlockPartKey" {
+					if i := strings.LastIndex(arg, ", "); i > 0 {
+						arg = arg[:i]
+					}
+				}
+				c.Check(arg == loopH, fmt.Sprintf("%s :: delete %s of the height being pruned", fk, m[1]), w.ipos(d.site), key, "deletes "+key+": not the entry of the loop height ("+loopH+") — an entry of a height that is kept is removed, or one of a pruned height is left")
+			}
+			c.Check(n == 4, fk+" :: four per-height key families deleted", w.pos(f.Pos()), "4", fmt.Sprintf("%d", n))
+		}
+		if f := c.fn("consensus", "State.pruneBlocks"); f != nil {
+			fk := funcKey(f)
+			ps := w.callsMatching(f, `\.PruneStates\(`)
+			c.Check(len(ps) == 1, fk+" :: prunes the state store", w.pos(f.Pos()), "1 call", fmt.Sprintf("%d PruneStates calls", len(ps)))
+			for _, call := range ps {
+				c.guards(f, call, fk+" :: prune the state store", 0, guardRe("the block store was pruned first and that succeeded", `^nil\(cs\.blockStore\.PruneBlocks\(retainHeight\)#1\)$`))
+				a := callArgs(call)
+				c.Check(len(a) == 2 && strings.HasSuffix(w.expr(a[0]), ".Base()") && w.expr(a[1]) == "retainHeight", fk+" :: state store pruned from the block store's base up to the retain height", w.ipos(call), w.callStr(call), w.callStr(call))
+			}
+		}
+	})
+}
